@@ -159,7 +159,7 @@ M = [
      "        if right_match and short_circuit:\n            return MatchResult(True, right_match.fields)",
      "        if short_circuit:\n            return MatchResult(False, [])"),
     ("C18", "set-filter-drops-aged-out", P + "proxy/message_logger.py",
-     "            m for m in self._filtered_entries if\n            m not in self._raw_entries and self.filter.match(m)\n        ]",
+     "            m for m in self._filtered_entries if\n            m not in self._raw_entries and self._filter_matches(m)\n        ]",
      "            m for m in self._filtered_entries if\n            m not in self._raw_entries and m in self._raw_entries\n        ]"),
     ("C18", "filter-before-store", P + "proxy/message_logger.py",
      "            self._raw_entries.append(entry)\n            if self.filter.match(entry):",
